@@ -1,6 +1,7 @@
 package props
 
 import (
+	"fmt"
 	"reflect"
 
 	"github.com/tdewolff/parse/v2/js"
@@ -141,4 +142,105 @@ func jsTreePositions(ast *js.AST) []jsPos {
 	root := add(ast, -1)
 	walk(reflect.ValueOf(ast).Elem(), root, 0)
 	return out
+}
+
+// jsTreeDiff compares two trees field by field (exported fields; Scope tables excluded; a *Var is compared by the
+// name of its root). It returns "" when they are equal and otherwise the path of the
+// first difference. It sees what String() hides: token types of literals, flags, nil versus empty nodes.
+func jsTreeDiff(a, b *js.AST) string {
+	return diffValue(reflect.ValueOf(a).Elem(), reflect.ValueOf(b).Elem(), "AST", 0)
+}
+
+func varRoot(v *js.Var) *js.Var {
+	for v.Link != nil {
+		v = v.Link
+	}
+	return v
+}
+
+func diffValue(a, b reflect.Value, path string, depth int) string {
+	if depth > 5000 {
+		return ""
+	}
+	if a.Kind() != b.Kind() {
+		return path + ": kinds differ"
+	}
+	switch a.Kind() {
+	case reflect.Interface:
+		if a.IsNil() != b.IsNil() {
+			return fmt.Sprintf("%s: nil=%v versus nil=%v", path, a.IsNil(), b.IsNil())
+		}
+		if a.IsNil() {
+			return ""
+		}
+		if a.Elem().Type() != b.Elem().Type() {
+			return fmt.Sprintf("%s: %s versus %s", path, a.Elem().Type(), b.Elem().Type())
+		}
+		return diffValue(a.Elem(), b.Elem(), path+"("+a.Elem().Type().String()+")", depth+1)
+	case reflect.Ptr:
+		if a.IsNil() != b.IsNil() {
+			return fmt.Sprintf("%s: nil=%v versus nil=%v", path, a.IsNil(), b.IsNil())
+		}
+		if a.IsNil() || a.Type() == jsScopePtrType {
+			return ""
+		}
+		if a.Type() == jsVarPtrType {
+			// by name only: which binding an occurrence denotes (Decl, Uses) is C04's matter, and a while loop printed as a
+			// for loop (WhileToFor) legitimately meets the recorded C04 findings about the shared for scope
+			va, vb := varRoot(a.Interface().(*js.Var)), varRoot(b.Interface().(*js.Var))
+			if string(va.Data) != string(vb.Data) {
+				return fmt.Sprintf("%s: Var %s versus Var %s", path, va.Data, vb.Data)
+			}
+			return ""
+		}
+		return diffValue(a.Elem(), b.Elem(), path, depth+1)
+	case reflect.Struct:
+		if a.Type() == jsScopeType {
+			return ""
+		}
+		for i := 0; i < a.NumField(); i++ {
+			if a.Type().Field(i).PkgPath != "" || a.Type().Field(i).Name == "Prec" {
+				// Prec (DotExpr, IndexExpr) records whether the operand was written as a call or as a member expression: it
+				// follows the parenthesisation, not the structure
+				continue
+			}
+			if d := diffValue(a.Field(i), b.Field(i), path+"."+a.Type().Field(i).Name, depth+1); d != "" {
+				return d
+			}
+		}
+		return ""
+	case reflect.Slice:
+		if a.Type().Elem().Kind() == reflect.Uint8 {
+			if string(a.Bytes()) != string(b.Bytes()) {
+				return fmt.Sprintf("%s: %q versus %q", path, a.Bytes(), b.Bytes())
+			}
+			return ""
+		}
+		if a.Len() != b.Len() {
+			return fmt.Sprintf("%s: %d versus %d elements", path, a.Len(), b.Len())
+		}
+		for i := 0; i < a.Len(); i++ {
+			if d := diffValue(a.Index(i), b.Index(i), fmt.Sprintf("%s[%d]", path, i), depth+1); d != "" {
+				return d
+			}
+		}
+		return ""
+	case reflect.Bool:
+		if a.Bool() != b.Bool() {
+			return fmt.Sprintf("%s: %v versus %v", path, a.Bool(), b.Bool())
+		}
+	case reflect.Int, reflect.Int8, reflect.Int16, reflect.Int32, reflect.Int64:
+		if a.Int() != b.Int() {
+			return fmt.Sprintf("%s: %v versus %v", path, a.Interface(), b.Interface())
+		}
+	case reflect.Uint, reflect.Uint8, reflect.Uint16, reflect.Uint32, reflect.Uint64:
+		if a.Uint() != b.Uint() {
+			return fmt.Sprintf("%s: %v versus %v", path, a.Interface(), b.Interface())
+		}
+	case reflect.String:
+		if a.String() != b.String() {
+			return fmt.Sprintf("%s: %q versus %q", path, a.String(), b.String())
+		}
+	}
+	return ""
 }
